@@ -109,6 +109,16 @@ Definition run_case (c : list (Z * Z) * list Z * list Z * list Z) : list Z :=
 '''
 
 
+APRELUDE = '''From VF Require Import Base.Prelude Model.Valid.
+Open Scope Z_scope.
+(* n test inputs, each visiting [names]; compare_fn = 2^(input index) *)
+Definition run_agg (c : list Z * nat) : list Z :=
+  let '(names, n) := c in
+  let samples := map (fun i => map (fun nm => (nm, 2 ^ Z.of_nat i)) names) (seq 0 n) in
+  flat_map (fun kl => [fst kl; fold_left Z.add (snd kl) 0; Z.of_nat (length (snd kl))]) (collect samples).
+'''
+
+
 def main():
   out_path = sys.argv[1]
   tier = os.environ.get('VERIF_TIER', 'quick')
@@ -121,6 +131,7 @@ def main():
   nontrivial = set()
   samples = []
   vcases = []
+  acases = []
   ship = gr.shipped()
   k = 0
   while k < n_models:
@@ -311,8 +322,58 @@ def main():
         r_lit = [(names(nm), int(v)) for nm, v in d.items()]
         vcases.append((r_lit, ([names(x) for x in ins], [names(x) for x in outs], const_names), exp, desc, variant))
         dist['filing:' + variant] += 1
+    # ---- correspondence for the aggregation loop (Model/Valid.aggregate) ----
+    # compare_fn returns 2^(index of the test input): the reported value of every
+    # tensor must be the model's (sum of the collected values) / (their number)
+    if not nonfinite:
+      nsm = rng.choice([1, 2, 3, 4, 5, 6])
+      agg_data = gg.random_inputs(mb, rng, nsm)
+      cur = [0]
+
+      def feed(smps):
+        for i_, s_ in enumerate(smps):
+          cur[0] = i_
+          yield s_
+      try:
+        ares = model_validator.compare_model(mb, qbytes, {k_: feed(v_) for k_, v_ in agg_data.items()}, 'vf',
+                                             lambda a_, b_: float(2 ** cur[0]))
+        for key in agg_data:
+          sr = ares.get_signature_comparison_result(key)
+          rep = {}
+          for g in (sr.input_tensors, sr.output_tensors, sr.constant_tensors, sr.intermediate_tensors):
+            rep.update({names(nm): float(v) for nm, v in g.items()})
+          acases.append((sorted(rep), nsm, rep, desc))
+          dist[f'aggregation:inputs={nsm}'] += 1
+      except Exception as e:  # pylint: disable=broad-except
+        dist['aggregation_raises'] += 1
     if len(samples) < 3:
       samples.append({'recipe': desc, 'metric': metric, 'signatures': list(data)})
+  # ---- model side: aggregation ----
+  amism = []
+  if acases:
+    shards = vlib.shard(list(range(len(acases))), 100)
+    alit = lambda c: (f'({cg.c_zlist(c[0])}, {c[1]}%nat)')
+    files = [(f'agg_{si}', APRELUDE + 'Definition cases : list (list Z * nat) := [\n' +
+              ';\n'.join(alit(acases[i]) for i in idxs) + '\n].\nEval vm_compute in (map run_agg cases).\n')
+             for si, idxs in enumerate(shards)]
+    results = vlib.run_case_files(files, jobs=8, timeout=900)
+    for si, idxs in enumerate(shards):
+      got = results[f'agg_{si}']
+      for j, i in enumerate(idxs):
+        flat = got[j]
+        model = {flat[x]: (flat[x + 1], flat[x + 2]) for x in range(0, len(flat), 3)}
+        rep = acases[i][2]
+        ok = set(model) == set(rep) and all(model[n][1] > 0 and rep[n] == model[n][0] / model[n][1] for n in rep)
+        if not ok:
+          bad = [n for n in rep if n not in model or model[n][1] == 0 or rep[n] != model[n][0] / model[n][1]]
+          amism.append({'case': i, 'variant': 'aggregation', 'recipe': acases[i][3], 'inputs': acases[i][1],
+                        'model': str({n: model.get(n) for n in bad[:3]}),
+                        'impl': str({n: rep[n] for n in bad[:3]})})
+          viol.append({'key': 'C18:not-the-mean-over-the-test-inputs', 'what':
+                       f'with compare_fn = 2^(input index) and {acases[i][1]} test inputs, tensor(s) '
+                       f'{bad[:3]} are reported as {[rep[n] for n in bad[:3]]}; the mean over the inputs is '
+                       f'{(2 ** acases[i][1] - 1) / acases[i][1]}',
+                       'input': {'recipe': acases[i][3], 'n_inputs': acases[i][1]}})
   # ---- model side ----
   mism = []
   if vcases:
@@ -333,8 +394,9 @@ def main():
         if jr != exp:
           mism.append({'case': i, 'variant': vcases[i][4], 'recipe': vcases[i][3],
                        'model': str(jr)[:300], 'impl': str(exp)[:300]})
+  mism += amism
   out = {
-      'interface': 'V', 'evaluations': dist['cases'] + len(vcases),
+      'interface': 'V', 'evaluations': dist['cases'] + len(vcases) + len(acases),
       'distinct_nontrivial': len(nontrivial),
       'n_mismatches': len(mism), 'mismatches': mism[:10],
       'oracle_violations': cg.dedup(viol, 2),
